@@ -138,5 +138,5 @@ MANIFEST = {
             "made while the request was open, fixed 764cd480), F-C15-2 open (`proxy signer update` with a re-initialised "
             "signer restarts the manifest number).",
     "technique": "Lean 4 proof (iff characterisations, inductive invariant over op histories with ghost counters, symbolic "
-                 "Dolev-Yao network) + source translator (bodies of the proxy's process_signer_response / process_make_signer_request = the model: gen_process_signer_response_eq_model) + lock-step correspondence on the real aggregates + oracle on observed events",
+                 "Dolev-Yao network) + source translator (bodies of the proxy's process_signer_response / process_make_signer_request = the model: gen_process_signer_response_eq_model; the signer's two guards in front of the signing - validation under the proxy's identity, override must exceed the signer's current number - = the model's processSignerRequest: gen_process_signer_request_eq_model, accepted_override_exceeds_current) + lock-step correspondence on the real aggregates + oracle on observed events",
 }
